@@ -67,6 +67,7 @@ func launch(name string) {
 	} else {
 		binary.Write(os.Stdout, binary.LittleEndian, uint32(cmd.Process.Pid))
 	}
+	verifPause("launch-after-start")
 
 	finished := make(chan struct{})
 	go func() {
@@ -79,6 +80,7 @@ func launch(name string) {
 	interrupt := make(chan os.Signal, 1)
 	signal.Notify(interrupt, os.Interrupt)
 	defer signal.Stop(interrupt)
+	verifPause("launch-before-wait")
 	select {
 	case <-finished:
 	case <-interrupt:
